@@ -13,6 +13,8 @@ def plan(tier, seed):
             ch("C06", F, "h_iter_row_groups", t, ["api.ParquetFile.iter_row_groups"]),
             ch("C06", F, "h_slice_count", t, ["api.ParquetFile.__getitem__", "api.ParquetFile.count",
                                               "api.ParquetFile.info", "api.ParquetFile.__setstate__"]),
+            ch("C06", F, "h_columns_arg", t, ["api.ParquetFile.to_pandas", "api.ParquetFile._get_index",
+                                              "util.check_column_names"]),
             dict(name="C06-lemma-range-index", kind="pyfunc", timeout=300,
                  payload=dict(func="vf.pyshim.lemmas:range_index",
                               kwargs=dict(max_step=6 if tier == "quick" else 40)))]
